@@ -9,6 +9,9 @@ from .props import PAIR_UNITS
 from . import rewrites as R
 
 
+SPINOFF = '#[verifier::spinoff_prover]\n'
+
+
 class LostAnchor(Exception):
     pass
 
@@ -1179,13 +1182,18 @@ class Generator:
                 if it.kind in ('raw', 'spec', 'struct'):
                     emit(it.full, it)
                 elif it.kind == 'proof':
-                    emit(it.full if own else it.stub, it if own else None)
+                    emit((SPINOFF + it.full) if own else it.stub, it if own else None)
                 else:
                     body = (it.canary_full if canary else it.full) if own else it.stub
                     if own and it.key in degrade and getattr(it, 'degraded_full', None):
                         body = it.degraded_full
                     if id(it) in merged_stub:
                         body = merged_stub[id(it)]
+                    elif own and not getattr(it, 'lifted', False) and not (it.kind == 'const' and it.impl_header is None):
+                        # every verified function gets its own solver process (fresh context): the queries are
+                        # independent of what else the file contains (robustness) and run in parallel (Verus
+                        # parallelises over buckets, and everything generated here lives in one module)
+                        body = SPINOFF + body
                     if it.impl_header is not None:
                         if not same_trait_impl(prev_it, it):
                             emit(it.impl_header + ' {')
